@@ -634,10 +634,22 @@ def to_xml(sch):
     for t in sch["types"]:
         s += enc_xml(t, 2)
     s += "  </types>\n"
+    inc = sch.get("_include")
+    if inc:
+        # types externalised into an included file (file written next to the schema; href is resolved against the cwd)
+        s += '  <xi:include xmlns:xi="http://www.w3.org/2001/XInclude" href=%s/>\n' % quoteattr(inc["file"])
     for m in sch["messages"]:
         s += "  <sbe:message" + _a("name", m["name"]) + _a("id", m["id"]) + _a("blockLength", m["block_length"]) + _common_xml(m) + ">\n"
         s += level_xml(m, 2) + "  </sbe:message>\n"
     return s + "</sbe:messageSchema>\n"
+
+
+def include_file_xml(sch):
+    """content of the included fragment (or None)"""
+    inc = sch.get("_include")
+    if not inc:
+        return None
+    return "<types>\n" + "".join(enc_xml(t, 1) for t in inc["types"]) + "</types>\n"
 
 
 # --------------------------------------------------------------------------
